@@ -118,6 +118,22 @@ func robustInputs(r *rand.Rand, n int, deep int) [][]byte {
 			}
 		}
 	}
+	// the index buffer is full (or nearly) exactly where a token STARTS (its index is stripped and carried into the next buffer),
+	// and nothing structural follows for 0..300 bytes: unterminated / terminated strings, long numbers, long atoms
+	for _, pairs := range []int{700, 701, 702, 703, 704, 705, 1406, 1407, 1408} {
+		for _, odd := range []bool{false, true} {
+			prefix := "[" + strings.Repeat("0,", pairs)
+			if odd {
+				prefix = "[ " + strings.Repeat("0,", pairs)
+			}
+			for _, n := range []int{0, 1, 30, 62, 63, 64, 65, 66, 100, 129, 300} {
+				for _, tok := range []string{"\"" + strings.Repeat("s", n), "\"" + strings.Repeat("s", n) + "\"]", "7" + strings.Repeat("7", n), "7" + strings.Repeat("7", n) + "]",
+					"t" + strings.Repeat("r", n), "\"" + strings.Repeat("s", n) + "\\"} {
+					in = append(in, []byte(prefix+tok))
+				}
+			}
+		}
+	}
 	// one long token at the very end of the input (the padded copies made for the last string / number / atom): every
 	// length around the 448 / 512-byte padding limits, as value, as key, terminated and not, with 0..70 bytes after it
 	for L := 380; L <= 600; L++ {
